@@ -13,11 +13,14 @@ ENGINE = {'name': 'throttle',
  'rule': '(a) n limiters rate.NewLimiter(r, b): r a power of two in 2^-3..2^20 tokens/s (or 0, or Inf), b in 0..65536, each driven by 1..12 '
          'ReserveN(t, k) calls at instants that are multiples of 1/512 s (same instant, earlier instant, short and long gaps), k in 0..b+2 with a '
          'bias to b-1, b; observed DelayFrom(t) and TokensAt(t); sequences whose float64 state is not an exact multiple of the model unit are '
-         'skipped (counted in stat reserve_inexact_skipped); non-trivial = at least two reservations on a finite-rate limiter with burst > 0. '
+         'skipped (counted in stat reserve_inexact_skipped); non-trivial = at least two reservations on a finite-rate limiter with burst > 0; '
+         'plus n/4 limiters with arbitrary rates p/q (q in 1,2,3,7,10) and arbitrary instants whose delays must agree with the model within '
+         '2 ns (float64 rounding). '
          '(b) n/5 configurations through the real Provision (negative/zero/small/large rates and bursts) and n/5 runs of the real '
          'Handle + throttledConn.Read over a scripted inner connection (bursts 1..40 at 20-30 MB/s so that waits are microseconds; Read lengths '
          '0, 1..80, 4096; inner connection hands over at most chunk bytes): observed the length of the slice given to every inner Read and the '
-         'count returned; non-trivial = some batch was clipped by a burst. (c) 12 (quick) / 48 (thorough) real-time runs in parallel goroutines: '
+         'count returned, and - with refill rates of 2^-20 B/s - the tokens taken from each limiter; non-trivial = some batch was clipped by a '
+         'burst or the ledger was observed. (c) 16 (quick) / 48 (thorough) real-time runs in parallel goroutines: '
          'rates 1-200 kB/s, bursts 1-64 KiB or default, latency 0-200 ms, 1-8 connections sharing a total limit, reader buffers 1 B-64 KiB; these '
          'are oracle-only (no Coq term). distinct = distinct Coq terms',
  'trusted_base': ['math/big is used by the harness to convert TokensAt (float64) into integer model units exactly',
@@ -31,8 +34,10 @@ ENGINE = {'name': 'throttle',
               'non-dyadic rates, Caddyfile parsing (C15), writes (not throttled)'],
  'assumptions': ['throttle_bound holds with one nanosecond of slack: bytes <= burst + rate*(T - t0 + 1ns), because durationFromTokens truncates the '
                  'wait to whole nanoseconds (C17_slack_is_needed shows the slack is necessary in the model of rate.go)',
-                 'clock_ordered: reservations reach each limiter in the order of their time.Now() readings (x/time/rate re-credits the interval '
-                 'when a goroutine that read the clock earlier takes the mutex later); the real-time check allows 20 ms for this',
+                 'C17_throttle_bound(_total) assume clock_ordered: reservations reach each limiter in the order of their time.Now() readings; '
+                 'C17_throttle_bound(_total)_every_schedule drop the assumption and bound the excess by rate x (sum of the backward jumps of the '
+                 'reservation instants), which is what rate.go re-credits when a goroutine that read the clock earlier takes the mutex later '
+                 '(C17_back_jump_excess: the term is necessary); the real-time check allows 20 ms for this',
                  'Reads on one connection are sequential (the per-connection limiter sees them in order); connections interleave arbitrarily',
                  'the limit is finite (limit == rate.Inf, i.e. math.MaxFloat64 bytes per second, disables the bucket by design)',
                  'a Read whose wait is InfDuration (rate 0 with an exhausted burst) is treated as never returning']}
